@@ -267,6 +267,29 @@ def run(rep):
             rep.violation(replay)
         else:
             rep.violation(replay, no_input=True)
+    # "at most one prefetch buffer ahead": the parallel map / multi-worker prefetch reached through the dataset API
+    # under the simulated pool (deterministic); the bound is the one proved as lpm_started_bound / lpm_pulled_bound
+    import concrun
+    import sched
+    api_fail = 0
+    n_api = 80 if rep.tier == 'quick' else 1500
+    for _ in range(n_api):
+        w = rng.choice([1, 2, 3])
+        nn = rng.choice([3, 5, 8, 12])
+        cfg = {'via': rng.choice(['parmap', 'parmap', 'prefetch']), 'w': w, 'b': w + rng.choice([0, 0, 1, 2]),
+               'items': [rng.randint(0, 9) for _ in range(nn)], 'ending': None, 'fm': 0, 'fr': 0, 'fcls': 'UserA',
+               'stop': rng.choice([1, 2, 3, None]), 'with_items': rng.random() < 0.6}
+        if cfg['via'] == 'prefetch' and w == 1:
+            cfg['w'], cfg['b'] = 2, 2
+        c = concrun.api_case(cfg, sched.RandomChooser(rng.randrange(1 << 30)))
+        for cl, det in concrun.oracle(c, ('C07',)):
+            api_fail += 1
+            if 'prefetch_buffer_exceeded' not in seen and len(rep.violations) < 4:
+                seen.add('prefetch_buffer_exceeded')
+                rep.violation({'property': 'C08', 'kind': 'oracle-failure', 'clause': 'more_than_one_prefetch_buffer_ahead',
+                               'detail': det, 'protocol': 'api', 'config': cfg, 'schedule': [ch for _, ch in c['run'].choices],
+                               'events': c['run'].events})
+    rep.coverage['parallel_map_read_ahead_runs'] = n_api
     rep.coverage.update({
         'evaluations': len(cases), 'programs': len(cases), 'disagreements_checked': steps, 'disagreements_found': len(disagree),
         'distinct_nontrivial': len({json.dumps(p, sort_keys=True) for p in cases if len(ops_of(p)) >= 3}),
